@@ -84,6 +84,19 @@ CLAIMED = {
         "as KNOWN-FINDING. Fixed: reshape_rechunk IndexError (fix: commit c10f59b).",
         "DESIGN.md §4 C08, §9",
     ),
+    "C10": (
+        "TaskGraph.tla model-checked over all schedules of small graphs (pure: one terminal store; in-place mutant: violated); recorded "
+        "executions of merged graphs of TLC-enumerated programs in several topological orders validated by TLC (TaskGraph.RunVerdict)",
+        "Model level (exhaustive): every schedule of the constant graphs; if every Exec only adds its own key, all schedules end in the "
+        "same store.  Code level: for every enumerated behaviour (corpora incl. sliding-window kernels and setitem / mask / out= "
+        "histories) the graphs of all live collections are merged into one graph, exported and executed by the driver's scheduler in "
+        "LIFO, FIFO, max-id, min-id and seeded random topological orders; every live value and the user's source arrays are "
+        "fingerprinted before and after every task.  TLC validates each execution as a behaviour of the machine: tasks enabled when "
+        "run, no live value changed by any task, results equal to the first order's, outputs produced, sources unchanged.",
+        "Task granularity only; thread interleavings of the threaded scheduler are not controlled. Graphs above 70 tasks are skipped. "
+        "A covering set of orders per graph, not all of them: the model-level theorem generalises observed purity to all orders.",
+        "DESIGN.md §4 C10, §9",
+    ),
     "C11": (
         "TLC-enumerated histories of ArrayProgram.tla (handles onto denotations; in-place actions replace env[target] only) "
         "replayed into dask_array with every live collection compared after every in-place action",
@@ -168,6 +181,18 @@ CLAIMED = {
         "Trusted: adapters in harness/impl_helpers.py. The value part is a sample (every k-th enumerated case), the layout part "
         "is exhaustive.",
         "DESIGN.md §4 C17",
+    ),
+    "C21": (
+        "TLC-enumerated ArrayProgram behaviours replayed; Frisky record lists exported into TaskGraph.tla's vocabulary, executed by an "
+        "in-process executor and validated by TLC (TaskGraph.RecordsVerdict)",
+        "Exhaustive within bounds over the corpora: for every collection, alone and as the last (up to 3) collections of a program "
+        "walked with one shared `seen` set, `__frisky_graph__()` and `__frisky_records_chunks__()` either decline with "
+        "NotImplementedError or give records whose graph is closed, acyclic and defines every `__frisky_output_keys__()` key, and "
+        "whose execution yields, for every output key, the block value of `__dask_graph__()`.",
+        "In this sandbox every node takes the generic GraphRecordsLayer translation (the native extension cannot be built, C22). "
+        "False alarm corrected: a 'no key defined by two records' clause was removed (a pinned alias and the raw task of the same name "
+        "legitimately coexist in a shared walk; equal names / equal arrays is C06's subject). vindex / diagonal are not generated yet.",
+        "DESIGN.md §4 C21, §9",
     ),
     "C27": (
         "TLC-enumerated layout pairs validated by TLC (Trace_Plan) + node estimates over TLC-enumerated ArrayProgram behaviours",
